@@ -11,6 +11,9 @@ def units(ctx):
         SeqUnit("workerpool", "WorkerPool", name="WorkerPool:two-held-submits", lts_kind="lts2", do_mc=False, do_trace=False,
                 walks=(40, 20), thorough_walks=(400, 30)),
         SeqUnit("workerpool", "PoolGroup", traces=(40, 40), thorough_traces=(300, 60), walks=(60, 25), thorough_walks=(500, 40)),
-        # free-running submitters / nested submits / Shutdown, conservation validated by TLC on every recorded execution
+        # the dispatcher's shutdown wake-up at lock level (all interleavings) + the model of the defect the code had
+        McUnit("workerpool", "DispatcherWakeImpl", "", name="DispatcherWakeImpl"),
+        McUnit("workerpool", "DispatcherWakeImpl", "nolock", name="ctl-signal-without-lock", expect="DispatcherExits"),
+        # forced schedule of that counterexample (verif yield point in Stack.PopOrWait) + free-running submitters / nested submits / Shutdown, conservation validated by TLC on every recorded execution
         TraceUnit("workerpool", "PoolRun", "poolstress", args=["-traces", 40], thorough_args=["-traces", 400]),
     ]
